@@ -696,6 +696,20 @@ def history_phases(tap, case, proto, pols, ike_suite, kids, hist):
     if bad:
         return bad
     bad += child_neg('CCSA-after-rekey', 'A', ('acquire', 'A', 0, 0), False)
+    if bad:
+        return bad
+    # every CHILD_SA goes (the kernel reports their hard expiry one by one), the IKE_SA stays; the CHILD_SA created on it
+    # then is negotiated like any other CREATE_CHILD_SA: with the whole policy of the entry, its DH groups included
+    for _ in range(8):
+        i, sa = est('A')
+        if sa is None or not sa.child_sas:
+            break
+        tap.run(('expire', 'A', bytes(sa.child_sas[0].inbound_spi), True))
+    i, sa = est('A')
+    if sa is None or sa.child_sas or any(len(e.kernel.sad) for e in tap.w.endpoints.values()):
+        return bad          # (what a hard expiry does is C10's subject)
+    del kids[:]
+    bad += child_neg('CCSA-on-childless-IKE_SA', 'A', ('acquire', 'A', 0, 0), False)
     return bad
 
 
